@@ -246,6 +246,20 @@ Plan generate(Rng &rng, const Opts &opts, uint64_t)
         } else if (r >= 97) {
             // the client edits one identifier of one of its models (services that remember anything about the model must notice)
             p.steps.push_back(mk(t, "EDIT", {sid, ms[rng.below(ms.size())], long(rng.below(9 * 8 * 7 * 5)), long(rng.below(16)), long(rng.below(3))}));
+            if (rng.chance(1, 3)) {
+                // ... or writes math that is not well-formed XML into it (an editor saving a half-typed equation); a service
+                // that has dealt with such a model says about the next model what a fresh one says
+                p.steps.back().a.push_back(long(1 + rng.below(2)));
+                long m = p.steps.back().a[1], service = long(1 + rng.below(2));
+                ++sid;
+                p.steps.push_back(mk(t, "PRINT", {sid, m, 0, service}));
+                ++sid;
+                p.steps.push_back(mk(t, "VALIDATE", {sid, m, service}));
+                ++sid;
+                p.steps.push_back(mk(t, "PRINT", {sid, ms[rng.below(ms.size())], long(rng.below(4) == 0), service}));
+                ++sid;
+                p.steps.push_back(mk(t, "VALIDATE", {sid, ms[rng.below(ms.size())], service}));
+            }
         } else if (r >= 95 && ms.size() > 1) {
             // the client lets go of a model; what services still say about it (issues and their items) must stay coherent
             size_t k = rng.below(ms.size());
@@ -607,9 +621,43 @@ void execute(const Plan &plan, Ctx &ctx)
                 }
             }
             size_t kind = present[size_t(s.arg(2)) % present.size()];
-            slots[kind][pick % slots[kind].size()]();
             bool done = true;
-            ctx.count(std::string("purity_edit_") + what[kind] + "_id");
+            std::vector<ComponentPtr> own; // components defined here: an imported component has no math of its own to edit
+            for (auto &c : comps) {
+                if (!c->isImport()) {
+                    own.push_back(c);
+                }
+            }
+            if (s.arg(5) != 0 && !own.empty()) {
+                // not an identifier this time: math that is not well-formed XML
+                static const char *const broken[] = {
+                    "<math xmlns=\"http://www.w3.org/1998/Math/MathML\"><apply><eq/><ci>a</ci><ci>b</ci></apply>",
+                    "<math xmlns=\"http://www.w3.org/1998/Math/MathML\"><apply><eq/><ci>a</ci><ci>b</ci></aply></math>",
+                    "<math xmlns=\"http://www.w3.org/1998/Math/MathML\"><apply><eq/><ci>a</ci><ci>b<</ci></apply></math>",
+                };
+                std::string text = broken[size_t(s.arg(3)) % 3];
+                std::vector<ResetPtr> resets;
+                for (auto &c : own) {
+                    for (size_t k = 0; k < c->resetCount(); ++k) {
+                        resets.push_back(c->reset(k));
+                    }
+                }
+                if (s.arg(5) == 2 && !resets.empty()) {
+                    auto r = resets[pick % resets.size()];
+                    if (pick % 2 == 0) {
+                        r->setTestValue(text);
+                    } else {
+                        r->setResetValue(text);
+                    }
+                    ctx.count("purity_client_writes_ill_formed_math_into_a_reset");
+                } else {
+                    own[pick % own.size()]->setMath(text);
+                    ctx.count("purity_client_writes_ill_formed_math_into_a_component");
+                }
+            } else {
+                slots[kind][pick % slots[kind].size()]();
+                ctx.count(std::string("purity_edit_") + what[kind] + "_id");
+            }
             if (done) {
                 ctx.count("purity_client_edits_an_identifier");
                 for (auto &h : w.held) {
